@@ -229,6 +229,25 @@ func DerInt(v *big.Int) []byte {
 	return TLV(0x02, b)
 }
 
+// DerInt64 encodes a signed integer (minimal two's complement).
+func DerInt64(v int64) []byte {
+	if v >= 0 {
+		return DerInt(big.NewInt(v))
+	}
+	// smallest k with -2^(8k-1) <= v
+	k := 1
+	for v < -(int64(1) << uint(8*k-1)) {
+		k++
+	}
+	b := make([]byte, k)
+	u := uint64(v)
+	for i := k - 1; i >= 0; i-- {
+		b[i] = byte(u)
+		u >>= 8
+	}
+	return TLV(0x02, b)
+}
+
 // ---------------------------------------------------------------------------------------------
 
 func unhex(s string) []byte {
@@ -310,6 +329,9 @@ func SelfTest() error {
 	// DER writer
 	if !bytes.Equal(DerSeq(DerInt(big.NewInt(128)), DerBits([]byte{4, 1}), DerOctets(make([]byte, 130))[:4]), unhex("300d02020080030300040104818200")) {
 		return fmt.Errorf("sm9ref: DER writer")
+	}
+	if !bytes.Equal(DerInt64(-256), unhex("0202ff00")) || !bytes.Equal(DerInt64(-1), unhex("0201ff")) || !bytes.Equal(DerInt64(-128), unhex("020180")) || !bytes.Equal(DerInt64(-129), unhex("0202ff7f")) || !bytes.Equal(DerInt64(256), unhex("02020100")) {
+		return fmt.Errorf("sm9ref: DER signed integer writer")
 	}
 	return nil
 }
